@@ -102,6 +102,8 @@ pub(crate) struct Node {
     pub observers: RefCell<HashMap<ObserverId, Weak<dyn ErasedObserver>>>,
     pub on_update_handlers: RefCell<Vec<ErasedOnUpdateHandler>>,
     pub graphviz_user_data: RefCell<Option<BoxedDebugData>>,
+    #[cfg(cormacrelf_incremental_rs_verif)]
+    pub verif_rank: Cell<usize>,
 }
 
 not_observer_boxed_trait! {
@@ -531,6 +533,8 @@ impl ErasedNode for Node {
             panic!("trying to make a node necessary whose defining bind is not necessary");
         }
         tracing::debug!("node {:?} became necessary", self.id);
+        #[cfg(cormacrelf_incremental_rs_verif)]
+        crate::verif::node_event("nec", self);
         state.num_nodes_became_necessary.increment();
         self.maybe_handle_after_stabilisation(state);
         /* Since [node] became necessary, to restore the invariant, we need to:
@@ -565,6 +569,8 @@ impl ErasedNode for Node {
 
     fn became_unnecessary(&self, state: &State) {
         tracing::debug!("node {:?} became unnecessary", self.id);
+        #[cfg(cormacrelf_incremental_rs_verif)]
+        crate::verif::node_event("unnec", self);
         state.num_nodes_became_unnecessary.increment();
         self.maybe_handle_after_stabilisation(state);
         state.set_height(self.packed(), -1);
@@ -610,6 +616,8 @@ impl ErasedNode for Node {
                 .replace(Some(self.weak()));
             // t.only_in_debug.expert_nodes_created_by_current_node <- []);
         }
+        #[cfg(cormacrelf_incremental_rs_verif)]
+        crate::verif::node_event("rec", self);
         state.num_nodes_recomputed.increment();
         self.recomputed_at.set(state.stabilisation_num.get());
 
@@ -859,6 +867,8 @@ impl ErasedNode for Node {
             return;
         }
         tracing::debug!("invalidating node");
+        #[cfg(cormacrelf_incremental_rs_verif)]
+        crate::verif::node_event("invalidate", self);
         self.maybe_handle_after_stabilisation(state);
         self.value_opt.take();
         // this was for node-level subscriptions. we don't have those
@@ -1601,6 +1611,8 @@ impl Node {
             self
         });
         rc.created_in.add_node(rc.clone());
+        #[cfg(cormacrelf_incremental_rs_verif)]
+        crate::verif::register(&rc);
         rc
     }
 
@@ -1645,6 +1657,8 @@ impl Node {
             graphviz_user_data: None.into(),
             cutoff: cutoff.into(),
             is_valid: true.into(),
+            #[cfg(cormacrelf_incremental_rs_verif)]
+            verif_rank: Cell::new(usize::MAX),
         }
     }
 
@@ -1928,5 +1942,13 @@ pub(crate) fn save_dot(f: &mut dyn Write, nodes: &mut dyn Iterator<Item = &Node>
 impl Drop for Node {
     fn drop(&mut self) {
         tracing::trace!("dropping Node: {:?}", self);
+    }
+}
+
+#[cfg(cormacrelf_incremental_rs_verif)]
+impl Node {
+    /// verification hook: the kind, whether or not the node is still valid
+    pub(crate) fn verif_kind(&self) -> &Kind {
+        &self._kind
     }
 }
